@@ -775,6 +775,15 @@ func ZZ_C13_Guards() {
 			guardFails, wantCode = true, errors.CodeTaskInternal
 		}
 	}
+	if zz.Bool("tasks_come_from_an_included_file") {
+		// included tasks are deep copies made by Tasks.Merge: the guards must survive it
+		merged := ast.NewTasks()
+		if err := merged.Merge(tf.Tasks, &ast.Include{Flatten: true}, nil); err != nil {
+			zz.Assert(false, "merge-must-not-fail")
+			return
+		}
+		tf.Tasks = merged
+	}
 	zzTerminal = terminal
 	zzPromptEOF = answer == len(zzAnswers)
 	if !zzPromptEOF {
